@@ -466,6 +466,10 @@ def gen_clockwork_world(seed, index, **over):
             # equal deadlines, or (half of the worlds) deadlines that differ between the requests of one burst
             gd["deadline_variance"] = burst.choice([[300, 300], [100, 400], [20, 150], [20, 150]])
             gd["graph"] = [_node("n1", work_profile=profiles[g]["name"])]
+        if over.get("burst_equal"):
+            # one burst, equal deadlines: what is placed first is decided by the order of a set of equals
+            for gd in graphs:
+                gd["period"], gd["start"], gd["deadline_variance"] = 0, 0, [300, 300]
         for prof in profiles:
             if all(e["batch_size"] == 1 for e in prof["execution_strategies"]):
                 prof["execution_strategies"].append({"batch_size": 2, "runtime": prof["execution_strategies"][0]["runtime"] + 1,
